@@ -2,6 +2,7 @@
 pool jobs) as controlled activities: its module-level `threading`,
 `futures`, `time` and `random` are replaced by greenlet-aware shims."""
 import collections
+import json
 
 from mc import env
 from mistral.scheduler import default_scheduler as ds
@@ -87,6 +88,14 @@ class GExecutor(object):
         inst = getattr(fn, '__self__', None)
         nm = getattr(inst, '_verif_name', 'S?')
         jid = getattr(args[0], 'id', '') if args else ''
+        if args and getattr(inst, '_verif_by_content', False):
+            # engine scenarios: a job is identified by what it does (its id
+            # disappears from the tables when the row is deleted)
+            j = args[0]
+            jid = '%s|%s|%s' % (getattr(j, 'func_name', ''),
+                                getattr(j, 'key', ''),
+                                json.dumps(getattr(j, 'func_args', None),
+                                           sort_keys=True, default=str))
         a = env.Activity('job', '%s.%s(%s)' % (nm, fn.__name__, jid),
                          lambda: fn(*args))
         a.owner = nm
@@ -133,6 +142,16 @@ ds.time = _Time
 ds.random = _Random
 
 
+class _NoThread(object):
+    daemon = True
+
+    def start(self):
+        pass
+
+    def join(self, timeout=None):
+        pass
+
+
 class DefaultDriver(object):
     """One scheduler instance (a separate engine process in production)."""
 
@@ -141,11 +160,31 @@ class DefaultDriver(object):
         self.sched = None
         self.crashed = False
 
-    def create(self):
+    def create(self, store_checker=True):
         self.sched = ds.DefaultScheduler.__new__(ds.DefaultScheduler)
         self.sched._verif_name = self.name
         ds.DefaultScheduler.__init__(self.sched, env.CONF.scheduler)
+        if not store_checker:
+            # engine scenarios: the periodic job-store poll (the redundancy
+            # path explored by C13) is not started; jobs run through the
+            # in-memory dispatcher and the pool, step by step
+            self.sched._job_store_checker_thread = _NoThread()
+            self.sched._verif_by_content = True
         self.sched.start()
+
+    def mem_state(self):
+        """In-memory part of the scheduler state (heap and job map), for the
+        canonical state of engine scenarios."""
+        s = self.sched
+        out = []
+        for jid, j in s.in_memory_jobs.items():
+            out.append([j.func_name, j.key,
+                        json.dumps(j.func_args, sort_keys=True, default=str),
+                        env._rel_time(j.execute_at),
+                        env._rel_time(j.captured_at),
+                        any(h[2] is j for h in s._heap)])
+        out.sort(key=lambda x: json.dumps(x, default=str))
+        return [self.name, self.crashed, out, len(s._heap)]
 
     # interface used by env.enabled_choices / next_clock_event
     def poll_enabled(self):
@@ -164,11 +203,11 @@ class DefaultDriver(object):
         env.W.acts = [a for a in env.W.acts if not a.done]
 
 
-def use_default_scheduler(n=1):
+def use_default_scheduler(n=1, store_checker=True):
     del env.SCHEDULERS[:]
     for i in range(n):
         d = DefaultDriver('S%d' % i)
-        d.create()
+        d.create(store_checker=store_checker)
         env.SCHEDULERS.append(d)
     sched_base._SCHEDULER = env.SCHEDULERS[0].sched
     return env.SCHEDULERS
